@@ -30,7 +30,7 @@ ASSUMPTIONS = [
   "documented configuration ValueErrors (frames syntaxes without fps, HH:MM:SS:FF with non-integer fps) are not failures",
 ]
 REQUIRED = ["roundtrips", "mode:representable", "mode:free", "cfg:none", "cfg:clock_time", "cfg:frames", "cfg:clock_time_with_frames",
-            "snapshots:compared", "class:ruby", "class:element-lang", "class:preserve-space", "class:times-beyond-24h", "class:single-px", "class:space-default-under-preserve"]
+            "snapshots:compared", "class:ruby", "class:element-lang", "class:preserve-space", "class:times-beyond-24h", "class:single-px", "class:space-default-under-preserve", "class:carry-offset"]
 SHARD_TIMEOUT = {"quick": 900, "thorough": 7200}
 N = {"quick": 36, "thorough": 2400}
 
@@ -483,6 +483,15 @@ def run(ctx, params):
     if cfg_name == "clock_time_with_frames" and fps.denominator != 1:
       fps = rng.choice([f for f in FPS if f.denominator == 1])
     mode = "representable" if rng.random() < 0.6 else "free"
+    if i % 6 == 5 and adoc0.body is not None:
+      # times within half a millisecond below a minute / hour boundary and off the millisecond grid: the written clock time carries
+      # into the seconds, minutes and hours fields (displacement stays below one unit)
+      off = rng.choice([Fraction(599997, 10000), Fraction(35999996, 10000), Fraction(1199996, 10000), Fraction(599996, 10000) + 3600])
+      adoc0.body.begin = (adoc0.body.begin or 0) + off
+      if adoc0.body.end is not None:
+        adoc0.body.end += off
+      mode = "free"
+      ctx.count("class:carry-offset")
     if mode == "representable":
       snap_times(adoc0, unit_of(cfg_name, fps))
     no_zero_length_ruby_parts(adoc0)
